@@ -36,12 +36,101 @@ def ctx_enum(eng, enum, variant):
     return Sc("isize", eng.impls.variant_discr(enum, variant), enum=enum)
 
 
+class Malformed(Exception):
+    pass
+
+
+def parse_segments(ctx, segs):
+    """Reference CBOR reader over hand-assembled output: a concatenation of single bytes (concrete
+    or symbolic), opaque byte strings and serialised sub-trees.  Returns the Value tree the bytes
+    denote; raises Malformed (with the path condition extended to a witness) when some length in a
+    head does not match what follows."""
+    from values import Opaque
+    written = ctx.side.get("written", {})
+    pos = [0]
+
+    def need_byte():
+        if pos[0] >= len(segs) or not isinstance(segs[pos[0]], Sc):
+            raise Malformed("a head byte was expected at segment %d" % pos[0])
+        b = segs[pos[0]]
+        pos[0] += 1
+        return b
+
+    def item():
+        if pos[0] >= len(segs):
+            raise Malformed("output ends early")
+        sg = segs[pos[0]]
+        if isinstance(sg, Opaque):
+            if sg.ident in written:
+                pos[0] += 1
+                return deep_clone(written[sg.ident])
+            raise Malformed("raw bytes where an item head was expected")
+        b = need_byte()
+        t = bv(b)
+        major = ctx.choose_cond([z3.Extract(7, 5, t) == k for k in range(8)], "rd:major")
+        ai = z3.Extract(4, 0, t)
+        k = ctx.choose_cond([z3.ULT(ai, 24), ai == 24, ai == 25, ai == 26, ai == 27, z3.UGT(ai, 27)], "rd:ai")
+        if k == 5:
+            raise Malformed("indefinite / reserved additional information in hand-assembled output")
+        if k == 0:
+            n = z3.ZeroExt(59, ai)
+        else:
+            w = [1, 2, 4, 8][k - 1]
+            bs = [bv(need_byte()) for _ in range(w)]
+            n = bs[0]
+            for x in bs[1:]:
+                n = z3.Concat(n, x)
+            n = z3.ZeroExt(64 - 8 * w, n) if w < 8 else n
+        n = z3.simplify(n)
+        if major in (0, 1):
+            val = z3.ZeroExt(64, n) if major == 0 else (z3.BitVecVal(-1, 128) - z3.ZeroExt(64, n))
+            return Adt("Value", "Integer", [Adt("Integer", None, [Sc("i128", z3.simplify(val))])])
+        if major in (2, 3):
+            # content: one opaque string (or nothing when the length is zero)
+            if pos[0] < len(segs) and isinstance(segs[pos[0]], Opaque) and segs[pos[0]].ident not in written:
+                o = segs[pos[0]]
+                pos[0] += 1
+                ln = o.len if is_sym(o.len) else z3.BitVecVal(o.len, 64)
+                if ctx.check(ln != n):
+                    ctx.assume(ln != n)
+                    raise Malformed("a byte-string head announces a length different from the content that follows")
+                content = VecV(None, o, "vec" if major == 2 else "string")
+            else:
+                if ctx.check(n != 0):
+                    ctx.assume(n != 0)
+                    raise Malformed("a byte-string head announces content that does not follow")
+                content = VecV([], None, "vec" if major == 2 else "string")
+            return Adt("Value", "Bytes" if major == 2 else "Text", [content])
+        if major in (4, 5):
+            if not z3.is_bv_value(n):
+                raise Malformed("symbolic array length in hand-assembled output")
+            cnt = n.as_long()
+            if major == 4:
+                return Adt("Value", "Array", [VecV([item() for _ in range(cnt)], None, "vec")])
+            return Adt("Value", "Map", [VecV([Tup([item(), item()]) for _ in range(cnt)], None, "vec")])
+        if major == 6:
+            return Adt("Value", "Tag", [Sc("u64", n), BoxV(Cell(item()))])
+        if z3.is_bv_value(n) and n.as_long() in (20, 21):
+            return Adt("Value", "Bool", [Sc("bool", n.as_long() == 21)])
+        if z3.is_bv_value(n) and n.as_long() == 22:
+            return Adt("Value", "Null", [])
+        raise Malformed("unsupported simple value")
+    tree = item()
+    if pos[0] != len(segs):
+        raise Malformed("trailing bytes after the item")
+    return tree
+
+
 def tree_of_bytes(ctx, v):
-    """The Value tree whose serialisation an opaque byte string stands for (None if not produced by
-    the serialiser stub on this path)."""
+    """The Value tree a produced byte string denotes: the tree recorded by the serialiser stub, or
+    -- for hand-assembled output -- the result of reading the concatenation with the reference
+    reader.  None if the bytes are neither."""
+    from values import Opaque
     v = refenc.deref(v)
     if isinstance(v, VecV) and v.elems is None:
         return ctx.side.get("written", {}).get(v.opaque.ident)
+    if isinstance(v, VecV) and v.elems and any(isinstance(e, Opaque) for e in v.elems):
+        return parse_segments(ctx, v.elems)
     return None
 
 
@@ -75,7 +164,10 @@ def expected_structure(ctx, eng, context_text, protecteds, tail):
 
 def check_structure(ctx, got_bytes, expected, what):
     """`got_bytes` must be the serialisation of exactly `expected` (compared as trees)."""
-    tree = tree_of_bytes(ctx, got_bytes)
+    try:
+        tree = tree_of_bytes(ctx, got_bytes)
+    except Malformed as e:
+        return what + ": output is not well-formed CBOR (%s)" % e
     if tree is None:
         return what + ": bytes handed over are not a serialised structure"
     eq = refenc.value_eq(ctx, tree, expected, ctx.side.get("written", {}), std_keys=set())
@@ -122,6 +214,7 @@ def structure_job(eng, tables, prop, tname, policy, deadline, max_paths=None, in
             x = strip_original(I, x)
         aad = ctx.fresh_opaque("aad", "vec")
         ext = ctx.fresh_opaque("detached", "vec")
+        ctx.side["lens"] = (aad.opaque.len, ext.opaque.len)
         problems = []
         xr = Ref(Cell(x))
         prot = f_(I, x, "protected")
@@ -247,8 +340,9 @@ def structure_job(eng, tables, prop, tname, policy, deadline, max_paths=None, in
         tree = concrete.node_to_tree(m, node, reg)
         job.findings.append({"property": prop, "key": key, "what": "%s: %s" % (tname, what), "op": "ops",
                              "type": tname, "input_hex": concrete.encode(tree).hex(),
-                             "command": "ops structures %s %s %s" % (tname, "built" if built else "wire",
-                                                                     concrete.encode(tree).hex()),
+                             "command": "ops structures %s %s %s %d %d" % (
+                                 tname, "built" if built else "wire", concrete.encode(tree).hex(),
+                                 *[min(concrete._ev(m, l), 70000) for l in ctx.side.get("lens", (12, 16))]),
                              "predicted": "PANIC" if cls.startswith("panic") else "MISMATCH",
                              "compare": "startswith"})
 
@@ -311,6 +405,7 @@ def free_structure_job(eng, tables, prop, which, deadline, max_paths=None, initi
             exp = expected_structure(ctx, eng, ENC_CTX[c], [keep_body], [aad])
         kinds = ctx.side.get("kinds", [])
         ctx.side["cmd"] = "ops free_structures %s %d %s %s" % (which, ci, kinds[0], kinds[1] if len(kinds) > 1 else "-")
+        ctx.side["lens"] = (aad.opaque.len, payload.opaque.len)
         try:
             p = check_structure(ctx, out, exp, which + "_structure_data(%s)" % c)
         except refenc.EncodeFault:
@@ -336,8 +431,12 @@ def free_structure_job(eng, tables, prop, which, deadline, max_paths=None, initi
         seen[key] = seen.get(key, 0) + 1
         if seen[key] > 2:
             return
+        m = ctx.model()
+        lens = ""
+        if m is not None and "lens" in ctx.side:
+            lens = " %d %d" % tuple(min(concrete._ev(m, l), 70000) for l in ctx.side["lens"])
         job.findings.append({"property": prop, "key": key, "what": what, "op": "ops", "type": which,
-                             "input_hex": "", "command": ctx.side.get("cmd", "ops free_structures " + which),
+                             "input_hex": "", "command": ctx.side.get("cmd", "ops free_structures " + which) + lens,
                              "predicted": "PANIC" if cls.startswith("panic") else "MISMATCH", "compare": "startswith",
                              "decisions": [list(d) for d in ctx.trace][:40]})
 
@@ -501,6 +600,28 @@ def history_job(eng, tables, prop, tname, steps, deadline, max_paths=None, initi
                 res = ctx.call("%s::%s" % (B, name), args)
                 if len(rec.calls) != 1:
                     problems.append(("create", "%s did not call the creator exactly once" % name))
+                    return problems
+                # the bytes handed to the creator are the RFC 8152 structure of the builder's current
+                # state (so different protected headers / AAD / payload never share them)
+                curp = f_(I, cur, "protected")
+                if fam in ("sign1", "sign"):
+                    pay = f_(I, cur, "payload")
+                    tail_p = refenc.deref(args[1 if fam == "sign1" else 2]) if detached_m else \
+                        (pay.fields[0] if pay.variant == "Some" else VecV([], None, "vec"))
+                    prots = [curp] if fam == "sign1" else [curp, f_(I, sigv, "protected")]
+                    ctext = SIG_CTX["CoseSign1"] if fam == "sign1" else SIG_CTX["CoseSignature"]
+                    want = expected_structure(ctx, eng, ctext, prots, [aad, tail_p])
+                elif fam == "mac":
+                    want = expected_structure(ctx, eng, MAC_CTX[tname], [curp], [aad, f_(I, cur, "payload").fields[0]])
+                else:
+                    want = expected_structure(ctx, eng, ENC_CTX[tname] if tname != "CoseRecipient" else ENC_CTX[rctx],
+                                              [curp], [aad])
+                try:
+                    pstruct = check_structure(ctx, rec.calls[0][-1], want, name)
+                except refenc.EncodeFault:
+                    pstruct = None
+                if pstruct:
+                    problems.append(("create-structure", pstruct))
                     return problems
                 if fam == "enc":
                     e0 = hcommon.spec_eq(ctx, rec.calls[0][0], plaintext)
